@@ -236,8 +236,8 @@ def jobs(tier, seed):
     for name, frag in FRAGMENTS:
         if tier == "thorough":
             frag = [p for q in frag for p in ([q, H("b")] if q == H("a") else [q])]
-        elif name not in ("emph", "code", "link", "image", "entity", "escape", "html"):
-            continue
+        elif name not in ("emph", "code", "link", "image", "escape", "html"):
+            continue  # the entity fragment (symbolic key into the 2 231-entry entity table) costs > 60 CPU-s per path: thorough only
         for other in ("heading", "list", "quote", "table"):
             jobs.append({"harness": "contexts", "params": {"cfg": JS, "fragment": frag, "spec": specnl, "name": name, "only": other}, "weight": 6,
                          "cpu_cap": 2400, "wall_cap": 3600, "path_cap": 120})
@@ -263,7 +263,7 @@ def thorough_extra(seed):
     _sharded(jobs, "single", {"cfg": JS, "scaffold": free_doc(3)}, weight=20, spec=spec)
     _sharded(jobs, "single", {"cfg": CM, "scaffold": free_doc(2)}, weight=8, spec=spec)
     for name, frag in FRAGMENTS:
-        if name in ("emph", "code", "link", "image", "entity", "escape", "html"):
+        if name in ("emph", "code", "link", "image", "escape", "html"):
             continue
         for other in ("heading", "list", "quote", "table"):
             jobs.append({"harness": "contexts", "params": {"cfg": JS, "fragment": frag, "spec": specnl, "name": name, "only": other}, "weight": 6, "path_cap": 120})
